@@ -304,6 +304,11 @@ func RunWriteEdit(behs [][]Step, tr *Trace, env Env, sum *Summary) {
 		var rawBuf hclwrite.Tokens // the caller's token buffer, reused from one SetAttributeRaw to the next
 		tr.Emit(map[string]any{"ev": "Reset"})
 		var f *hclwrite.File
+		type handed struct {
+			b []byte // what Bytes() returned, kept as it was returned
+			s string // what it said then
+		}
+		var held []handed
 		step := func(ev string, o Step, fn func()) bool {
 			pan, hung := guarded(fn, 20*time.Second)
 			if strings.HasPrefix(pan, "harness-error") {
@@ -314,6 +319,7 @@ func RunWriteEdit(behs [][]Step, tr *Trace, env Env, sum *Summary) {
 			doc := []any{}
 			perr := ""
 			meas := weMeasure(nil)
+			said, kept := "", true
 			if crashed {
 				k := "panic"
 				if hung {
@@ -326,14 +332,22 @@ func RunWriteEdit(behs [][]Step, tr *Trace, env Env, sum *Summary) {
 				} else {
 					out = f.Bytes()
 				}
+				said = string(out)
 				var d []any
 				d, perr = weProject(out)
 				if d != nil {
 					doc = d
 				}
 				meas = weMeasure(out)
+				held = append(held, handed{out, said})
+				for _, h := range held {
+					if string(h.b) != h.s {
+						kept = false
+						sum.Counters["handed-out bytes changed later"]++
+					}
+				}
 			}
-			tr.Emit(map[string]any{"ev": ev, "o": o, "doc": doc, "m": meas, "crashed": crashed, "parse_error": perr, "text": string(out)})
+			tr.Emit(map[string]any{"ev": ev, "o": o, "doc": doc, "m": meas, "crashed": crashed, "parse_error": perr, "text": said, "kept": kept})
 			sum.Counters["op."+o.Str("op")]++
 			return !crashed && perr == ""
 		}
